@@ -5,7 +5,7 @@ N="$1"; W=/tmp/w/$N/verif
 cd /verif
 mkdir -p reports patches/$N
 [ -f "$W/REPORT.md" ] && cp "$W/REPORT.md" reports/$N.md
-cp -r "$W/patches/." patches/$N/ 2>/dev/null
+if [ -d "$W/patches/$N" ]; then cp -r "$W/patches/$N/." patches/$N/; else find "$W/patches" -maxdepth 1 -type f -newer "$W/CONVENTIONS.md" -exec cp {} patches/$N/ \; ; fi 2>/dev/null; rmdir patches/$N 2>/dev/null
 echo "== new files =="
 (cd "$W" && find coq harness -type f \( -name '*.v' -o -name '*.go' -o -name '*.json' -o -name '*.yaml' -o -name '*.txt' -o -name '*.md' \) ! -path '*/build/*' ) | while read f; do
   if [ ! -e "/verif/$f" ]; then mkdir -p "$(dirname /verif/$f)"; cp "$W/$f" "/verif/$f"; echo "  + $f"; 
